@@ -35,7 +35,9 @@ def run(ck):
         L = 10_000 if i % 4 == 3 else int(rng.integers(15, 40))
         X = xr.make_X('random', n, d, rng); Xv = xr.make_X('random', 35, d, rng)
         y = xr.make_y(task, X, rng, n_classes=K); yv = xr.make_y(task, Xv, rng, n_classes=K)
-        Q = xr.make_X('random', 11, d, rng)
+        # queries: fresh rows AND the training rows themselves (every split threshold is the projection of one training row, so these sit exactly on / next to
+        # the thresholds: routing them must not depend on the width in which the caller happened to store the numbers)
+        Q = np.concatenate([xr.make_X('random', 11, d, rng), X]).astype(np.float32)
         tuned = (i % 2 == 0)
         ctor = dict(rfm_params=xr.default_rfm_params(iters=1, reg=1e-2, bandwidth=3.0), max_leaf_size=L, verbose=False, classification_mode=enc,
                     use_temperature_tuning=tuned, refill_size=15, temp_tuning_space=[0.0, 0.05, 0.4, 3.0])
